@@ -236,6 +236,8 @@ def expected_encode(clock, argv, stdin, files):
     """expected stdout bytes of an encode invocation inside the domain, else None"""
     if len(argv) not in (4, 5) or clock <= OFFSET_MS or clock >= U64:
         return None
+    if len(argv) == 5 and argv[4] != b"-x":
+        return None                 # the documented forms are `encode <manifest> <payload | ->` and the same with `-x`
     man = lookup(argv[2], files)
     if man is None:
         return None
@@ -576,6 +578,8 @@ def oracle(line, out, mode):
     if out in ("PANIC", "CRASH", "NOBIN", "NOTMP", "NOSPAWN", "NOWAIT", "BADCASE"):
         return "harness could not run the case: %s" % out
     cmd = argv[1] if len(argv) > 1 else None
+    if not in_domain(line):
+        return None            # wrong usage / undocumented forms: the tool's reaction is unspecified
     if cmd == b"rnd":
         if clock > OFFSET_MS and out != "RND 0 T T":
             return "rnd: output does not decode / validate / match the printed id (%s)" % out
@@ -590,8 +594,7 @@ def oracle(line, out, mode):
             return "encode aborts or fails on a manifest inside the domain: %s" % out[:60]
         if r[2] != data:
             return "encode output is not the encoding of the manifest's fields and payload"
-        if (r[1] == "T") != warn:
-            return "stderr output does not match the unknown keys of the manifest"
+        # whether and what the tool writes to stderr (warnings about unknown manifest keys ..) is not specified
         return None
     if cmd == b"decode" and len(argv) == 4 and argv[3] == b"-p" and argv[0] != NEG:
         raw = stdin if argv[2] == b"-" else None
@@ -618,10 +621,10 @@ def oracle(line, out, mode):
             return "%s aborts: %s" % (cmd.decode(), out[:60])
         if cmd == b"d2u" and r[2] != b"%d\n" % (t // 1000 + 946684800):
             return "d2u does not print unix()"
-        if cmd == b"dtntime" and t <= LAST_9999 and r[2] != _rfc3339(t).encode() + b"\n":
-            return "dtntime does not print string()"
+        if cmd == b"dtntime" and t <= LAST_9999 and vlib.canon_rfc3339_hex(r[2].hex(), suffix_ok=False) != "@%d" % (t + OFFSET_MS):
+            return "dtntime does not print that instant in RFC 3339 UTC notation"
         return None
-    if cmd == b"dtntime" and len(argv) != 3 and OFFSET_MS <= clock < U64:
+    if cmd == b"dtntime" and len(argv) == 2 and OFFSET_MS <= clock < U64:
         r = _stdout(out)
         if r is None or r[0] != "0" or r[2] != b"%d\n" % (clock - OFFSET_MS):
             return "dtntime without argument does not print dtn_time_now()"
@@ -697,7 +700,7 @@ def in_domain(line):
         return True
     cmd = argv[1] if len(argv) > 1 else None
     if cmd == b"rnd":
-        return clock > OFFSET_MS
+        return clock > OFFSET_MS and argv[2:] in ([], [b"-r"])       # the documented forms: `rnd`, `rnd -r`
     if cmd == b"encode":
         return expected_encode(clock, argv, stdin, files) is not None
     if cmd == b"decode" and len(argv) == 4 and argv[3] == b"-p" and argv[0] != NEG:
@@ -714,6 +717,17 @@ def in_domain(line):
     return False
 
 
+def canon(out):
+    """`OK <exit status> <anything on stderr? T|F> x<stdout>`: whether the tool writes to stderr (warnings about comment lines or unknown
+    manifest keys, the ID `rnd` prints ..) is not specified by the property and not compared"""
+    import runner
+    t = (out or "").split(" ")
+    if len(t) == 4 and t[0] == "OK" and t[2] in ("T", "F"):
+        t[2] = "-"
+        return " ".join(t)
+    return runner.default_canon(out)
+
+
 def same(line, io, mo):
     """model/implementation differences that are NOT a broken correspondence: invocations the property does not speak about, and the
     wording of the text `dtntime` prints for a time beyond year 9999 (only 'prints something, exit 0' is specified there)"""
@@ -722,6 +736,12 @@ def same(line, io, mo):
     clock, argv, stdin, files = parse_line(line)
     if len(argv) == 3 and argv[1] == b"dtntime" and int(argv[2]) > LAST_9999:
         return (io or "").startswith("OK 0 ") and (mo or "").startswith("OK 0 ")
+    if len(argv) == 3 and argv[1] == b"dtntime":
+        # an RFC 3339 text is compared by the instant it denotes (the number of fraction digits is free)
+        ri, rm = _stdout(io or ""), _stdout(mo or "")
+        if ri and rm and ri[0] == rm[0] == "0":
+            ci = vlib.canon_rfc3339_hex(ri[2].hex(), suffix_ok=False)
+            return ci is not None and ci == vlib.canon_rfc3339_hex(rm[2].hex(), suffix_ok=False)
     return False
 
 
